@@ -35,12 +35,14 @@ ASSUMPTIONS = [
     "spacing=None means the normalised cube spacing 2/(n-1) for the flow functions (documented default of the flow derivative losses) "
     "and unit spacing (index units) for spatial_derivatives on image data; in bspline mode the spacing is "
     "the distance of the control points (= data lattice) and output sample m lies at control point index 1 + m/stride",
+    "call sequences: every ordered pair [X, Y] of step configurations (dtype x {bspline stride 2, bspline stride 3, default mode}), same shape and other-shape-first, "
+    "per function family, each first step in a freshly forked process (one shard per X); only the last call is judged, with the tolerance of its own dtype",
     "lie_bracket(a, b) is judged as Jac(a) b - Jac(b) a (formula in its docstring, positional call); lie_bracket in bspline mode is not judged",
 ]
 # vacuity guard: about half of what the quick tier measures (77 707 non-trivial cases, 52 311 outcomes); thorough is a superset
 MIN_NONTRIVIAL = {"quick": 38000, "thorough": 60000}
 MIN_OUTCOMES = {"quick": 26000, "thorough": 40000}
-MIN_SUB_TRACES = {"fd1": 3800, "fd2": 3100, "bspline": 700, "keys": 6300, "jac": 2900, "det": 2100, "div": 2900, "curl": 2900, "lie": 3300, "sd": 21000}
+MIN_SUB_TRACES = {"fd1": 3800, "fd2": 3100, "bspline": 700, "keys": 6300, "jac": 2900, "det": 2100, "div": 2900, "curl": 2900, "lie": 3300, "sd": 21000, "seq": 400}
 
 EPS = {"f32": 2.0 ** -23, "f64": 2.0 ** -52}
 DT = {"f32": torch.float32, "f64": torch.float64}
@@ -70,7 +72,7 @@ def shapes(D: int, tier: str):
         return [(a, b) for a in (5, 6, 7) for b in (5, 6, 7)]
     base = [(5, 6, 7), (7, 5, 6), (6, 7, 5), (5, 5, 5), (7, 7, 6), (6, 5, 5), (5, 7, 7), (6, 6, 6)]
     if tier == "quick":
-        return base[:5]
+        return base[:3]
     return base + [(8, 5, 9), (5, 9, 6)]
 
 
@@ -112,6 +114,13 @@ def offsets(D, shape, H):
     """Centred dyadic-ish offsets (the operators never see coordinates; any offset is in the domain)."""
     n = [shape[D - 1 - d] for d in range(D)]
     return np.array([[H[i, d] * (0.25 * (d + 1) - ((n[d] - 1) // 2)) for d in range(D)] for i in range(H.shape[0])])
+
+
+def f32_term(sp: str, image: bool = False) -> float:
+    """deepali converts the spacing to float32: a relative error of 2^-23 of every derivative value is allowed where the
+    spacing is not exactly representable (only spacing=None = 2/(n-1) of the flow functions; every other menu entry is dyadic,
+    and spacing=None of spatial_derivatives is exactly 1), so float64 results are judged with float64 tolerances."""
+    return EPS["f32"] if (sp == "none" and not image) else 0.0
 
 
 def field_from(spec) -> P.PolyField:
@@ -182,7 +191,7 @@ class Built:
     def e1(self, order: int, emax: float) -> float:
         """Error bound (without the factor C) of one derivative value of the given order."""
         eps = EPS[self.cfg["dtype"]]
-        return eps * max(self.umax, 1e-30) * (2.0 ** order) / (self.hmin ** order) + EPS["f32"] * emax
+        return eps * max(self.umax, 1e-30) * (2.0 ** order) / (self.hmin ** order) + f32_term(self.cfg["sp"]) * emax
 
     def region(self, order: int):
         return P.interior(self.oshape, margin_of(self.mode, order))
@@ -191,6 +200,8 @@ class Built:
 def sig_of(case, fn, kind):
     cfg = case["cfg"]
     extra = f"/req={case['req']['form']}" if "req" in case and case["sub"] in ("keys", "sd") else ""
+    if case.get("after"):
+        extra += f"/family={case['family']}/then={case['then']}/after={case['after']}"
     return f"C12/{case['sub']}/fn={fn}/mode={cfg['mode']}/D={cfg['D']}/sp={cfg['sp']}{extra}/{kind}"
 
 
@@ -351,7 +362,7 @@ def case_bspline(J: Judge, case):
         o = len(letters)
         for i in range(N):
             exp = P.spline_derivative(coef[i, ch], letters, st, H[i])
-            tol = C * (eps * cmax * 8.0 / (H[i].min() ** o) + EPS["f32"] * float(np.abs(exp).max()))
+            tol = C * (eps * cmax * 8.0 / (H[i].min() ** o) + f32_term(cfg["sp"]) * float(np.abs(exp).max()))
             J.close("flow_derivatives", f"value/order={o}", f"{key} item {i} stride {st}", a[i, 0], exp, tol)
 
 
@@ -614,13 +625,24 @@ def case_sd(J: Judge, case):
             for c in range(Cn):
                 f = Bs[c // D].fields[i]
                 exp = f.deriv(f"d{P.CHANNELS[c % D]}/d{key}", B.Xout[i])
-                tol = C * (EPS[cfg["dtype"]] * max(umax, 1e-30) * 2.0 ** o / B.hmin ** o + EPS["f32"] * float(np.abs(exp).max()))
+                tol = C * (EPS[cfg["dtype"]] * max(umax, 1e-30) * 2.0 ** o / B.hmin ** o + f32_term(cfg["sp"], image=True) * float(np.abs(exp).max()))
                 J.close("spatial_derivatives", f"value/order={o}", f"{key} channel {c} item {i}", a[(i, c) + reg], exp[reg], tol)
+
+
+def case_seq(J: Judge, case):
+    """Call sequence [configuration X, then configuration Y] in one process: the stateless API must answer Y as in a fresh
+    process.  Only the LAST step is judged (with the tolerance of its own dtype); the case holds the whole sequence."""
+    for sub in case["steps"][0]:
+        J0 = Judge(sub)
+        st, _ = guarded(DISPATCH[sub["sub"]], J0, sub)
+        J.trans += J0.trans
+    for sub in case["steps"][1]:
+        DISPATCH[sub["sub"]](J, sub)
 
 
 DISPATCH = {
     "fd1": case_fd, "fd2": case_fd, "bspline": case_bspline, "keys": case_keys, "jac": case_jac,
-    "det": case_det, "div": case_div, "curl": case_curl, "lie": case_lie, "sd": case_sd,
+    "det": case_det, "div": case_div, "curl": case_curl, "lie": case_lie, "sd": case_sd, "seq": case_seq,
 }
 
 
@@ -685,10 +707,10 @@ def key_requests(D, tier, mode):
     pairs = list(itertools.combinations(allk, 2))
     if D == 3 and tier == "quick":
         # quick: every pair of keys of the same component (they share one spatial_derivatives call and its
-        # de-duplication of mixed keys) plus every 7th other pair; thorough: all pairs
+        # de-duplication of mixed keys) plus every 11th other pair; thorough: all pairs
         def related(a, b):
             return a[1] == b[1]
-        pairs = [p for n, p in enumerate(pairs) if related(*p) or n % 7 == 0]
+        pairs = [p for n, p in enumerate(pairs) if related(*p) or n % 11 == 0]
     for a, b in pairs:
         reqs.append({"form": "pair", "which": [a, b]})
     for a, b in pairs[:: 7]:
@@ -735,11 +757,64 @@ def strides(D, tier):
 
 PARTS = ["fd", "views", "multi", "extra"]
 
+SEQ_FAMILIES = ["flow_derivatives", "spatial_derivatives", "jacobian_det", "divergence", "curl", "lie_bracket"]
+# configurations of one step: dtype x (bspline with two strides | default mode); higher precision first
+SEQ_CONFIGS = [("f64", "bspline", 2), ("f64", "bspline", 3), ("f64", "default", None),
+               ("f32", "bspline", 2), ("f32", "bspline", 3), ("f32", "default", None)]
+
+
+def seq_label(c):
+    return f"{c[0]}:{c[1]}" + (f":s{c[2]}" if c[2] else "")
+
+
+def seq_step(family, D, shape, c, seed):
+    """Sub-cases (existing single-call judges) of one step of a sequence."""
+    dt, mode, stride = c
+    cfg = {"D": D, "shape": list(shape), "sp": "vec", "mode": mode, "N": 1, "dtype": dt, "seed": seed}
+    if mode == "bspline":
+        cfg["stride"] = stride
+    g1 = field_spec(P.generic_field(D, seed, 1, 0), "gen1")
+    g1b = field_spec(P.generic_field(D, seed, 1, 1), "gen1b")
+    g2 = field_spec(P.generic_field(D, seed, 2, 0), "gen2")
+    if family == "flow_derivatives":
+        if mode == "bspline":
+            return [{"sub": "bspline", "cfg": cfg, "coef": "generic", "req": {"form": "order", "order": o}} for o in (1, 2)]
+        return [{"sub": "fd1", "cfg": cfg, "order": 1, "fields": [g1], "via": "order"}, {"sub": "fd2", "cfg": cfg, "order": 2, "fields": [g2]}]
+    if family == "spatial_derivatives":
+        return [{"sub": "sd", "cfg": dict(cfg, image=True), "channels": D, "degree": 1, "fields": [g1], "req": {"form": "order-only", "order": 1}}]
+    if family == "jacobian_det":
+        return [{"sub": "det", "cfg": cfg, "fields": [g1]}]
+    if family == "divergence":
+        return [{"sub": "div", "cfg": cfg, "fields": [g1]}]
+    if family == "curl":
+        return [{"sub": "curl", "cfg": cfg, "fields": [g1]}]
+    if family == "lie_bracket":
+        return [{"sub": "lie", "cfg": cfg, "fields": [g1], "fields2": [g1b]}]
+    raise KeyError(family)
+
+
+def seq_cases(shard):
+    family, D, seed = shard["family"], shard["D"], shard["seed"]
+    shape = (6, 7) if D == 2 else (5, 6, 7)
+    other = (8, 5) if D == 2 else (6, 5, 8)
+    x = tuple(shard["first"])
+    out = []
+    for y in SEQ_CONFIGS:
+        if family == "lie_bracket" and y[1] == "bspline":
+            continue
+        first_shape = other if shard["variant"] == "other-shape-first" else shape
+        ysteps = seq_step(family, D, shape, y, seed)
+        out.append({"sub": "seq", "family": family, "cfg": ysteps[0]["cfg"], "then": seq_label(y), "after": seq_label(x) + ("@other-shape" if first_shape != shape else ""),
+                    "steps": [seq_step(family, D, first_shape, x, seed), ysteps]})
+    return out
+
+
 
 def cases_of(shard):
     """All cases of a shard (deterministic function of the descriptor)."""
-    tier, seed, D, mode, kind = shard["tier"], shard["seed"], shard["D"], shard["mode"], shard["kind"]
-    shape = list(shard["shape"])
+    tier, seed, D, kind = shard["tier"], shard["seed"], shard["D"], shard["kind"]
+    mode = shard.get("mode")
+    shape = list(shard.get("shape", []))
     part = shard.get("part")
     full = shard.get("full", True)
     sps = SP_QUICK if tier == "quick" else SP_THOROUGH
@@ -748,6 +823,8 @@ def cases_of(shard):
     combos = list(itertools.product(sps, (1, 2), dts)) if full else [("ND", 2, "f64"), ("none", 1, "f32")]
     combos_packed = list(itertools.product(sps, dts)) if full else [("ND", "f64"), ("none", "f32")]
     out = []
+    if kind == "seq":
+        return seq_cases(shard)
 
     def cfg(sp, N, dt, stride=None):
         c = {"D": D, "shape": shape, "sp": sp, "mode": mode, "N": N, "dtype": dt, "seed": seed}
@@ -826,7 +903,7 @@ def cases_of(shard):
             # spatial_derivatives on image data: affine data judges every key (second order = 0), quadratic data the second order
             for sp, N, dt in combos:
                 c = dict(cfg(sp, N, dt), image=True)
-                for Cn in (1, D, D + 1):
+                for Cn in ((1, D, D + 1) if tier == "thorough" else (1, D + 1)):
                     nf = (Cn + D - 1) // D
                     for degree in (1, 2):
                         fl = [field_spec(P.generic_field(D, seed, degree, v), f"gen{degree}v{v}") for v in range(N * nf)]
@@ -853,7 +930,7 @@ def full_shapes(D, tier):
     shp = shapes(D, tier)
     if tier == "thorough":
         return shp
-    return [(5, 7), (6, 5)] if D == 2 else [(5, 6, 7)]
+    return [(5, 7)] if D == 2 else [(5, 6, 7)]
 
 
 def shards(tier: str, seed: int):
@@ -870,6 +947,13 @@ def shards(tier: str, seed: int):
             for shape in kshapes:
                 for k in range(nparts):
                     out.append({"tier": tier, "seed": seed, "D": D, "mode": mode, "shape": list(shape), "kind": "keys", "part": k, "nparts": nparts})
+        # call sequences [X, Y]: one shard (= one fresh process) per family x first configuration X; inside, all Y (float64 first)
+        for family in SEQ_FAMILIES:
+            for x in SEQ_CONFIGS:
+                if family == "lie_bracket" and x[1] == "bspline":
+                    continue
+                for variant in ("same-shape", "other-shape-first"):
+                    out.append({"tier": tier, "seed": seed, "D": D, "kind": "seq", "family": family, "first": list(x), "variant": variant})
     return out
 
 
@@ -891,6 +975,8 @@ def bounds(tier):
         "det_matrices": {"D2": len(det_matrices(2, 0)), "D3": len(det_matrices(3, 0))},
         "lie_pairs": {"D2": 49, "D3": 169},
         "key_requests": {"D2": len(key_requests(2, tier, "central")), "D3": len(key_requests(3, tier, "central"))},
+        "call_sequences": {"depth": 2, "families": SEQ_FAMILIES, "step_configurations": [seq_label(c) for c in SEQ_CONFIGS],
+                           "variants": ["same-shape", "other-shape-first"], "ordered_pairs_per_family_and_D": len(SEQ_CONFIGS) ** 2},
         "shards": len(sh),
     }
 
@@ -909,13 +995,15 @@ def run_shard(shard) -> Acc:
         J = exec_case(case)
         acc.state(state_key(case))
         acc.trans(J.trans)
-        acc.trace(case["sub"], depth=1)
+        acc.trace(case["sub"], depth=2 if case["sub"] == "seq" else 1)
         for o in J.outcomes:
-            acc.outcome(case["sub"], case["cfg"]["mode"], *o)
+            acc.outcome(case["sub"], case["cfg"]["mode"], case.get("after", ""), *o)
         if J.nontrivial:
             acc.nontriv(state_key(case))
         for sig, detail in J.out:
             acc.violation(sig, case, detail, size=case["cfg"]["D"] * 100 + case["cfg"]["N"] * 10 + int(np.prod(case["cfg"]["shape"])) // 50)
+        if len(acc.samples) < 2 and case["sub"] == "seq":
+            acc.sample({"sequence": [[{"sub": c["sub"], "cfg": c["cfg"]} for c in step] for step in case["steps"]], "family": case["family"], "violations": [s for s, _ in J.out]})
         if len(acc.samples) < 2 and case["sub"] in ("fd2", "lie", "keys"):
             acc.sample({"case": {k: v for k, v in case.items() if k not in ("fields", "fields2")}, "fields": [f.get("name") for f in case.get("fields", [])], "violations": [s for s, _ in J.out]})
     return acc
